@@ -283,8 +283,8 @@ func c08RuleC(c *core.Ctx, r *c08roles, prov *c08Prov) {
 		var problems []string
 		nApp := 0
 		seen := map[ssa.Value]bool{}
-		var visit func(v ssa.Value, depth int)
-		visit = func(v ssa.Value, depth int) {
+		var visit func(v ssa.Value, node ssa.Value, depth int)
+		visit = func(v ssa.Value, node ssa.Value, depth int) {
 			if seen[v] || depth > 30 {
 				return
 			}
@@ -292,7 +292,7 @@ func c08RuleC(c *core.Ctx, r *c08roles, prov *c08Prov) {
 			switch x := v.(type) {
 			case *ssa.Phi:
 				for _, e := range x.Edges {
-					visit(e, depth+1)
+					visit(e, node, depth+1)
 				}
 			case *ssa.MakeSlice:
 			case *ssa.Const:
@@ -305,15 +305,29 @@ func c08RuleC(c *core.Ctx, r *c08roles, prov *c08Prov) {
 					return
 				}
 				problems = append(problems, "the slice is re-sliced before it is returned")
-				visit(x.X, depth+1)
+				visit(x.X, node, depth+1)
 			case *ssa.Call:
 				bn, ok := x.Call.Value.(*ssa.Builtin)
 				if !ok || bn.Name() != "append" || len(x.Call.Args) != 2 {
+					// a helper of package idr that receives the converted node: the array is what the helper returns,
+					// built from the helper's own parameter
+					if cf, hnode := g5HelperFor(r, x, node); cf != nil && !ok {
+						nr := 0
+						for _, hrt := range ecReturns(cf) {
+							if len(hrt.Results) == 1 {
+								nr++
+								visit(core.Unwrap(hrt.Results[0], true), hnode, depth+1)
+							}
+						}
+						if nr > 0 {
+							return
+						}
+					}
 					problems = append(problems, "the slice is the result of "+c08CalleeName(x))
 					return
 				}
 				nApp++
-				visit(x.Call.Args[0], depth+1)
+				visit(x.Call.Args[0], node, depth+1)
 				sl, ok := x.Call.Args[1].(*ssa.Slice)
 				var elems []ssa.Value
 				if ok {
@@ -330,7 +344,7 @@ func c08RuleC(c *core.Ctx, r *c08roles, prov *c08Prov) {
 						problems = append(problems, "an appended element is not the conversion of a child node but "+ts.String())
 						continue
 					}
-					if ok, why := c08SiblingCursor(r, cursor, nodeParam); !ok {
+					if ok, why := c08SiblingCursor(r, cursor, node); !ok {
 						problems = append(problems, why)
 					}
 				}
@@ -338,7 +352,7 @@ func c08RuleC(c *core.Ctx, r *c08roles, prov *c08Prov) {
 				problems = append(problems, fmt.Sprintf("the slice derives from a %T", v))
 			}
 		}
-		visit(vals[i], 0)
+		visit(vals[i], nodeParam, 0)
 		if nApp == 0 {
 			problems = append(problems, "no append builds the returned slice")
 		}
@@ -349,12 +363,24 @@ func c08RuleC(c *core.Ctx, r *c08roles, prov *c08Prov) {
 
 	// (iii) object entries: name and value come from the same child
 	nEnt := 0
-	for _, b := range k.Blocks {
-		for _, in := range b.Instrs {
-			mu, ok := in.(*ssa.MapUpdate)
-			if !ok || !c08IsIfaceMap(mu.Map.Type()) {
-				continue
+	// the entries are stored by the converter or by a helper it hands the node to and whose result it returns
+	type entrySite struct {
+		mu   *ssa.MapUpdate
+		node ssa.Value
+	}
+	var entrySites []entrySite
+	for _, bld := range g5Builders(r, k, np) {
+		for _, b := range bld.fn.Blocks {
+			for _, in := range b.Instrs {
+				if mu, ok := in.(*ssa.MapUpdate); ok && c08IsIfaceMap(mu.Map.Type()) {
+					entrySites = append(entrySites, entrySite{mu, bld.node})
+				}
 			}
+		}
+	}
+	for _, es := range entrySites {
+		{
+			mu, nodeParam := es.mu, es.node
 			if _, isConst := mu.Key.(*ssa.Const); isConst {
 				continue
 			}
